@@ -206,7 +206,8 @@ MkCopy == On("copy") /\ Building /\
                               nm == FldNames[off + q]
                           IN IF us /\ b.t = "tuple" /\ HasField(b.fs, nm)
                                THEN Bin("add", Bin("dot", Sym(N_self), Sym(nm)), t) ELSE t
-             IN b.t \in {"tuple", "module"} /\ Len(Stk) >= k /\ (us => k > 0 /\ On("self")) /\
+             (* the base is a tuple or a module - or, as a planted fault with no override, anything else *)
+             IN (b.t \in {"tuple", "module"} \/ (ill > 0 /\ k = 0 /\ ~us)) /\ Len(Stk) >= k /\ (us => k > 0 /\ On("self")) /\
                 Join(k, [e |-> "copy", sel |-> Cur.scope[j].nm,
                          flds |-> [q \in 1..k |-> [nm |-> FldNames[off + q], ex |-> fx(q)]]])
 (* list-form format: arguments = number of placeholders *)
